@@ -280,6 +280,28 @@ def predicates_without_model(drv, pid, tier, seed, cfg, stage):
         print('(the predicates could not be evaluated without the model: %r)' % (e,))
 
 
+def static_words(drv, cfg):
+    """for a property with late files: what the statically extracted tables (coq/ParamsFoot.v) say in words about a change of
+    the sources, compared with the expected tables - needs no compiled Coq file, so it is available when the build is broken"""
+    if not cfg.get('late_files'):
+        return {}
+    try:
+        import footdiff
+        if 'AliasStatic.v' in cfg['late_files']:
+            diffs, regenerated, expected = footdiff.alias_differences(drv)
+            where = 'coq/AliasFacts.v'
+        else:
+            diffs, regenerated, expected = footdiff.differences(drv)
+            where = 'coq/IndepFacts.v'
+        if diffs:
+            return dict(static_explanation=dict(what='differences between the statically extracted tables (coq/ParamsFoot.v) and the expected ones (%s)' % where,
+                                                difference_in_words=[d['words'] + '  [lemma ' + d['lemma'] + ' of the late file]' for d in diffs],
+                                                regenerated=regenerated, expected=expected))
+    except Exception as e:   # never let the explanation break the report
+        return dict(static_explanation=dict(what='the static tables could not be compared: %r' % (e,)))
+    return {}
+
+
 def check(drv, pid, tier, seed):
     if pid not in PROPS:
         print('unknown property', pid)
@@ -292,18 +314,7 @@ def check(drv, pid, tier, seed):
         if stage in ('coq', 'hygiene', 'genparams', 'gotrans'):
             # a proof obligation (or the translator's expectation) no longer checks
             tail = info.get('output', '')[-3000:]
-            more = {}
-            if cfg.get('late_files'):
-                # the statically extracted tables may say in words what changed in the sources (they need no compiled Coq file)
-                try:
-                    import footdiff
-                    diffs, regenerated, expected = footdiff.differences(drv)
-                    if diffs:
-                        more = dict(static_explanation=dict(what='differences between the statically extracted footprint tables (coq/ParamsFoot.v) and the expected ones (coq/IndepFacts.v)',
-                                                            difference_in_words=[d['words'] + '  [lemma ' + d['lemma'] + ' of the late file]' for d in diffs],
-                                                            regenerated=regenerated, expected=expected))
-                except Exception as e:   # never let the explanation break the report
-                    more = dict(static_explanation=dict(what='the static tables could not be compared: %r' % (e,)))
+            more = static_words(drv, cfg)
             path = violation(drv, pid, dict(property=pid, seed=seed, case='proof', kind='proof-obligation', stage=stage,
                                              theorem_or_correspondence='the Coq development no longer builds against the regenerated Params.v (stage %s)' % stage,
                                              output=tail, **more), 'no-failing-input-found')
@@ -319,7 +330,7 @@ def check(drv, pid, tier, seed):
             errs = re.findall(r'(File "\./[\w.]+", line \d+, characters [\d-]+:\n(?:.*\n){1,12}?)(?=make|File|COQC|Closed|$)', outp)
             violation(drv, pid, dict(property=pid, seed=seed, case='proof', kind='proof-obligation', stage='coq',
                                      theorem_or_correspondence='the Coq files of this property no longer build against the regenerated sources (Params.v / ParamsFoot.v / GenSrc.v / GenQueue.v): %s have no up-to-date compiled file; files that failed to compile: %s' % (', '.join(stale), ', '.join(f + '.v' for f in info.get('coq_failed_files', []))),
-                                     errors=[e.strip() for e in errs][:6], output=outp[-3000:]), 'no-failing-input-found')
+                                     errors=[e.strip() for e in errs][:6], output=outp[-3000:], **static_words(drv, cfg)), 'no-failing-input-found')
             return 1
         print('(a Coq file of another property does not compile: %s; the files of %s are up to date)' % (', '.join(info.get('coq_failed_files', [])), pid), flush=True)
     outdir = os.path.join(drv.BUILD, pid)
